@@ -218,6 +218,12 @@ fn util_docs(la: &LangAtoms) -> Vec<RuleDoc> {
     R::Any(vec![m("u1"), m("u2")]),
     vec![("u0", k(0)), ("u1", R::Nth { pos: "1".into(), reverse: false, of: Some(Box::new(m("u0"))) }), ("u2", R::All(vec![m("u1"), m("u0")]))],
   ));
+  // a utility whose kind set comes ONLY through nthChild.ofRule of another utility and that caches
+  // it in a conjunction (second, kind-less key): registered too early the cache would be None forever
+  docs.push(mk(
+    R::Any(vec![m("u1"), m("u2")]),
+    vec![("u0", k(0)), ("u1", R::Obj(vec![R::Nth { pos: "1".into(), reverse: false, of: Some(Box::new(m("u0"))) }, R::Regex(la.regexes[0].to_string())])), ("u2", R::Obj(vec![m("u1"), R::Regex(".".into())]))],
+  ));
   docs.push(mk(
     R::All(vec![m("u2")]),
     vec![("u0", R::Any(vec![k(0), k(2)])), ("u1", R::Nth { pos: "2n+1".into(), reverse: true, of: Some(Box::new(m("u0"))) }), ("u2", R::Any(vec![m("u1"), k(1)]))],
@@ -340,6 +346,7 @@ fn main() {
       let n_keys = doc.utils.len();
       let want_orders: usize = (1..=n_keys).product();
       let mut seen: BTreeSet<Vec<String>> = BTreeSet::new();
+      let load_results: Mutex<BTreeMap<Vec<String>, Result<(), String>>> = Mutex::new(BTreeMap::new());
       let mut offset = 0usize;
       while seen.len() < want_orders && offset < 400 {
         let text2 = text.clone();
@@ -348,6 +355,7 @@ fn main() {
         let st_ref = &st;
         let ts_ref = &ts_small;
         let doc_json = doc.core_json();
+        let load_results = &load_results;
         let order = std::thread::scope(|s| {
           s.spawn(move || {
             // advance this fresh thread's RandomState counter: the `utils` map is then
@@ -356,6 +364,15 @@ fn main() {
             drop(dummies);
             let ser: SerializableRuleCore = from_str(&text2).expect("util doc parses");
             let order: Vec<String> = ser.utils.as_ref().unwrap().keys().cloned().collect();
+            // the same document as a full rule file: accepted or rejected, but the same in every order
+            {
+              let mut cfg = doc_json.clone();
+              cfg["id"] = json!("u");
+              cfg["language"] = json!(lang);
+              let globals = GlobalRules::default();
+              let loaded = from_yaml_string::<SupportLang>(&cfg.to_string(), &globals).map(|_| ()).map_err(|e| format!("{e:?}"));
+              load_results.lock().unwrap().insert(order.clone(), loaded);
+            }
             let core = match ser.get_matcher(DeserializeEnv::new(lang2)) {
               Ok(c) => c,
               Err(e) => {
@@ -374,6 +391,18 @@ fn main() {
         });
         seen.insert(order);
         offset += 1;
+      }
+      {
+        let lr = load_results.lock().unwrap();
+        let oks = lr.values().filter(|r| r.is_ok()).count();
+        if oks != 0 && oks != lr.len() {
+          let bad = lr.iter().find(|(_, r)| r.is_err()).unwrap();
+          let good = lr.iter().find(|(_, r)| r.is_ok()).unwrap();
+          rep.violation(
+            &format!("utils-doc{di}:rule-file-accepted-or-rejected-depending-on-registration-order"),
+            json!({"lang": lang, "doc": doc.core_json(), "order_accepted": good.0, "order_rejected": bad.0, "error": bad.1.clone().err()}),
+          );
+        }
       }
       orders_seen.lock().unwrap().insert(format!("{lang}:doc{di}"), seen);
     }
